@@ -6,13 +6,15 @@ import Nv.Gen.C11
 oracle_c11 — line protocol. Every output line has two halves: `T <result> len=<n> d=<unread> ## B <result> len=<n> d=<unread>`;
 `T` is the implementation-shaped model of `tex.Buffer` (configuration regenerated from the source), `B` the abstract
 buffer (`bytes.Buffer`). `B -` for operations only tex.Buffer has; `B *` once the script left the compared domain
-(Unread* while a Grow is the last lastRead-relevant operation — the property's own exclusion — or ReWrite).
+(Unread* while a Grow is the last lastRead-relevant operation — the property's own exclusion —, ReWrite, or a ReadFrom whose
+reader may deliver more than MinRead bytes per call: what it delivers then depends on the space offered = capacity policy).
+`news n` runs `St.sized n`, which `newSizedBuffer_eq` (Props) proves equal to the model of the constructor's body (make + Reset).
 
   init:  `new` | `news <size>` | `newb <bytes> <extraCap>`
   ops:   `write <bytes>` `writestr <bytes>` `writebyte <hh>` `writerune <int>` `read <k>` `readbyte` `readrune`
          `unreadbyte` `unreadrune` `next <n>` `truncate <n>` `reset` `grow <n>`
          `readfrom <bytes> eof|err|neg|over[+] <tail> <k>*` (`+` = greedy after the chunks) `writeto all|over|short|err [k]`
-         `len` `bytes` `string` `cap` `off` `rewrite <pos> <bytes>`
+         `len` `bytes` `string` `cap` `off` `rewrite <pos> <bytes>` `memprobe <n>`
   <bytes> ::= `-` | hex | `x<a>:<n>` (n bytes (a + 13 i) mod 256)
 Byte strings longer than 24 are printed as `#<len>:<fnv1a-64>`.
 -/
@@ -144,6 +146,12 @@ def isGrow : Op → Bool
   | .grow _ => true
   | _ => false
 
+/-- a scripted reader that may hand over more than `MinRead` bytes in one call: how much it delivers then depends on
+    the size of the slice it was offered, i.e. on the capacity policy — outside the compared domain like `Cap()` -/
+def spaceDependent : Op → Bool
+  | .readFrom r => r.sizes.any (fun k => k > Nv.Gen.C11.cfg.minRead) || r.tail > Nv.Gen.C11.cfg.minRead
+  | _ => false
+
 def line (ti : St) (to : Out) (b : String) : String := s!"T {showOut to} {view ti.data} ## B {b}"
 
 def step (o : O) (l : String) : O × String :=
@@ -167,6 +175,13 @@ def step (o : O) (l : String) : O × String :=
       let o' : O := ⟨St.ofBytes d e, Spec.SSt.ofBytes d, false, false, true⟩
       (o', line o'.impl .ok s!"ok {view d}")
     | _, _ => (o, "bad-op")
+  | ["memprobe", n] =>
+    -- T-observable: `Grow(n)` on a zero buffer in a child process with capped memory. The model's allocation rule:
+    -- beyond `allocLimit` → ErrTooLarge; below it the request is granted if memory suffices (`MemOk`), else the runtime aborts.
+    if !o.started then (o, "bad-op")
+    else match parseNat? n with
+    | some n => (o, if n > allocLimit then "T too-large ## B too-large" else "{T ok ## B ok|T fatal ## B fatal}")
+    | none => (o, "bad-op")
   | ws =>
     if !o.started then (o, "bad-op")
     else match parseOp ws with
@@ -174,6 +189,7 @@ def step (o : O) (l : String) : O × String :=
     | some op =>
       let (ti, to) := C11.step Nv.Gen.C11.cfg o.impl op
       let desync := o.desync || (o.taint && isUnread op) || (match op with | .rewrite _ _ => true | _ => false)
+        || spaceDependent op
       let taint := if isGrow op then true else if keepsTaint op then o.taint else false
       if desync then
         (⟨ti, o.spec, taint, true, true⟩, line ti to "*")
